@@ -22,7 +22,7 @@ ASSUMPTIONS = unitkit.UNITS_STUB_TEXT + [
     "the direct B<->Np constant (1.151277918) is not compared with ln(10)/2: C05 does not state it",
 ]
 OUTSIDE = ['array magnitudes beyond two elements (temperature conversions and level additions are checked on 2-element arrays)', 'binary64 rounding', 'the B<->Np constant', 'temperatures inside compound units (refused by the library)']
-BOUNDS = {'quick': 'all 16 temperature pairs + prefixed kelvin, every row of LogarithmicUnitType.conversions with its admissible prefixes, add/sub for every bel-type unit',
+BOUNDS = {'quick': 'all 16 temperature pairs + prefixed kelvin, every row of LogarithmicUnitType.conversions with its admissible prefixes, add/sub for every bel-type unit, mixed-prefix levels, two-element array temperatures and level sums, concrete edge inputs (zeros and ratios of 1e-30 in arrays, array level subtraction, Decimal Cel/degF)',
           'thorough': 'same plus more linear-side prefixes and compound forms'}
 EXHAUSTIVE = {'quick': True, 'thorough': True}
 PRE = '''
